@@ -158,8 +158,12 @@ impl LineBuffer {
         assert!(pos <= buf.len());
         let end = self.len();
         self.drain(0..end, Direction::default(), cl);
-        let max = self.buf.capacity();
+        let mut max = self.buf.capacity();
         if self.must_truncate(buf.len()) {
+            // cut on a char boundary
+            while !buf.is_char_boundary(max) {
+                max -= 1;
+            }
             self.insert_str(0, &buf[..max], cl);
             self.pos = max.min(pos);
         } else {
